@@ -189,7 +189,7 @@ fn listing(secs: &Secs, e: RunTimeEndian) -> Result<(String, String), String> {
 }
 
 /// input features that decide which recorded finding a failure belongs to (read with gimli::read):
-/// (a DW_LNS_fixed_advance_pc operand is not a multiple of min_inst_len,
+/// (a `DW_LNS_fixed_advance_pc 0` in a VLIW program (max_ops > 1): the operation pointer can go backwards,
 ///  two file entries — header or DW_LNE_define_file — have the same directory text and name)
 fn input_features(secs: &Secs, e: RunTimeEndian) -> (bool, bool) {
     let dwarf = load(secs, e);
@@ -198,8 +198,8 @@ fn input_features(secs: &Secs, e: RunTimeEndian) -> (bool, bool) {
     let Ok(unit) = dwarf.unit(header) else { return (false, false) };
     let Some(program) = unit.line_program.clone() else { return (false, false) };
     let h = program.header();
-    let minlen = h.minimum_instruction_length() as u64;
-    let mut unaligned = false;
+    let maxops = h.maximum_operations_per_instruction() as u64;
+    let mut fap0 = false;
     let mut keys: Vec<(Option<Vec<u8>>, Option<Vec<u8>>)> = Vec::new();
     let mut key = |f: &read::FileEntry<R>| {
         let d = h.directory(f.directory_index()).and_then(|d| resolve(&dwarf, &unit, d));
@@ -212,7 +212,7 @@ fn input_features(secs: &Secs, e: RunTimeEndian) -> (bool, bool) {
     let mut it = h.instructions();
     while let Ok(Some(i)) = it.next_instruction(h) {
         match i {
-            read::LineInstruction::FixedAddPc(n) if minlen > 1 && n as u64 % minlen != 0 => unaligned = true,
+            read::LineInstruction::FixedAddPc(0) if maxops > 1 => fap0 = true,
             read::LineInstruction::DefineFile(f) => keys.push(key(&f)),
             _ => {}
         }
@@ -225,7 +225,7 @@ fn input_features(secs: &Secs, e: RunTimeEndian) -> (bool, bool) {
             }
         }
     }
-    (unaligned, dup)
+    (fap0, dup)
 }
 
 fn cerr_name(e: &write::ConvertError) -> String {
@@ -300,14 +300,8 @@ fn op_line(a: &[&str]) -> Option<String> {
     let out = match res {
         Err(p) => {
             let m = panic_msg(p);
-            let (unaligned, _) = input_features(&secs, e);
-            let class = if m.contains("left == right") && unaligned {
-                "panic-unaligned"
-            } else if m.contains("!val.is_empty()") {
-                "panic-empty-name"
-            } else {
-                "convert-panics"
-            };
+            let (fap0, _) = input_features(&secs, e);
+            let class = if m.contains("subtract with overflow") && fap0 { "panic-op-pointer-backwards" } else { "convert-panics" };
             return Some(format!("panic {m} #oracle:{class} on an input the reader accepts"));
         }
         Ok(Err(name)) => return Some(format!("ok failed:{name}")),
@@ -344,10 +338,10 @@ fn op_line(a: &[&str]) -> Option<String> {
             };
             let (pi, po) = (parse(&lin.0), parse(&lout.0));
             let regs = |v: &Vec<(String, String, String)>| v.iter().map(|x| x.0.clone()).collect::<Vec<_>>();
-            let (unaligned, dup) = input_features(&secs, e);
+            let (_, dup) = input_features(&secs, e);
             let fd = if dup { "file-differs-duplicate" } else { "file-differs" };
             if regs(&pi) != regs(&po) {
-                r.push_str(&format!(" #oracle:{} the converted program reads back with other rows", if unaligned { "rows-differ-unaligned" } else { "rows-differ" }));
+                r.push_str(&format!(" #oracle:{} the converted program reads back with other rows", "rows-differ"));
             } else if pi.iter().zip(po.iter()).any(|(x, y)| x.2 != y.2) {
                 r.push_str(&format!(" #oracle:{fd} a row resolves to another file entry"));
             } else if lin.1 != lout.1 {
@@ -659,7 +653,7 @@ fn gen_instrs(rng: &mut Rng, p: &P, t: &Tables, odd: bool) -> Vec<I> {
                 18 => is.push(I::BasicBlock),
                 19 => is.push(I::ConstAddPc),
                 20 => {
-                    let k = if rng.chance(2, 3) { rng.below(50) * p.minlen } else { rng.below(300) };
+                    let k = if rng.chance(1, 8) { 0 } else if rng.chance(2, 3) { rng.below(50) * p.minlen } else { rng.below(300) };
                     is.push(I::FixedAddPc(k))
                 }
                 21 => is.push(I::PrologueEnd),
